@@ -520,3 +520,98 @@ pub const CONC_RULE: &str = "case = (scenario, knobs, schedule) drawn from split
 
 #[allow(dead_code)]
 fn _unused(_: Op) {}
+
+// ---------------------------------------------------------------------------
+// C19 = concurrent scenarios (3 of 4 runs) + seeded rope programs (1 of 4)
+// ---------------------------------------------------------------------------
+
+pub struct C19Prop {
+  pub conc: ConcProp,
+}
+
+impl C19Prop {
+  fn rope_case(&self, seed: u64, index: u64) -> crate::rope_prog::RopeCase {
+    let mut rng = Rng::new(run_seed(seed, str_hash("C19-rope"), index));
+    crate::rope_prog::gen_rope_case(&mut rng)
+  }
+
+  fn rope_report(&self, index: u64, case: &crate::rope_prog::RopeCase) -> RunReport {
+    let (violations, counters) = crate::rope_prog::check_rope_case(case);
+    let h = hash_value(case);
+    RunReport {
+      index,
+      violations,
+      counters,
+      log_hash: h,
+      case_hash: h,
+      nontrivial: case.ops.len() >= 3,
+      skipped: false,
+      case: serde_json::to_value(case).unwrap(),
+      outcome_hash: h,
+    }
+  }
+}
+
+impl Property for C19Prop {
+  fn id(&self) -> &'static str {
+    "C19"
+  }
+  fn level(&self) -> &'static str {
+    "exploration"
+  }
+  fn run_one(&self, seed: u64, index: u64) -> RunReport {
+    if index % 4 == 3 {
+      let case = self.rope_case(seed, index);
+      self.rope_report(index, &case)
+    } else {
+      self.conc.run_one(seed, index)
+    }
+  }
+  fn case_of(&self, seed: u64, index: u64) -> Value {
+    if index % 4 == 3 {
+      serde_json::to_value(self.rope_case(seed, index)).unwrap()
+    } else {
+      self.conc.case_of(seed, index)
+    }
+  }
+  fn replay(&self, case: &Value, keep_trace: bool) -> (RunReport, Vec<String>) {
+    if case["kind"] == "rope" {
+      let c: crate::rope_prog::RopeCase = serde_json::from_value(case.clone()).unwrap_or_else(|e| {
+        eprintln!("HARNESS-ERROR: replay case does not parse: {}", e);
+        std::process::exit(2);
+      });
+      (self.rope_report(0, &c), vec![])
+    } else {
+      self.conc.replay(case, keep_trace)
+    }
+  }
+  fn shrink(&self, case: &Value, kind: &str) -> (Value, Value) {
+    if case["kind"] == "rope" {
+      match serde_json::from_value::<crate::rope_prog::RopeCase>(case.clone()) {
+        Ok(c) => {
+          let from = json!({"ops": c.ops.len(), "arena_bytes": c.arena.iter().map(|s| s.len()).sum::<usize>()});
+          let small = crate::rope_prog::shrink_rope_case(&c, kind);
+          (serde_json::to_value(&small).unwrap(), from)
+        }
+        Err(_) => (case.clone(), json!(null)),
+      }
+    } else {
+      self.conc.shrink(case, kind)
+    }
+  }
+  fn rule(&self) -> String {
+    format!(
+      "three of four runs: {} The other quarter of the runs are seeded rope programs (new / from / from_iter incl. empty and all-empty piece lists / add / append, slices through every RangeBounds form incl. off-boundary, out-of-range and unbounded ranges, byte_slice_unchecked on valid ranges, char_indices, lines, starts_with, ends_with) compared with a String model. All runs execute with the guarded precondition assertion armed at each of the 15 unsafe sites; the threads' streams end with a consumer tail (gather chunks into ropes, slice, iterate). Only precondition failures, cache replacement, consumer-tail errors and (Miri tier) UB reports are violations here.",
+      self.conc.rule
+    )
+  }
+  fn assumptions(&self) -> Vec<String> {
+    let mut a = self.conc.assumptions();
+    a.push("the precondition predicates are faithful transcriptions of the SAFETY comments".into());
+    a.push("input-only preconditions are reached by sampling (scenarios, consumer tail, rope programs), not systematically; per-site hit counts are reported".into());
+    a
+  }
+  fn real_vs_stub(&self) -> Value {
+    self.conc.real_vs_stub()
+  }
+}
